@@ -17,7 +17,7 @@ import (
 func init() {
 	fw.Register(&fw.Check{
 		ID: "C15", Level: "model_checking",
-		Rule:   "descriptions: ALL texts of 1..3 (quick) / 1..4 (thorough) lines over a line alphabet {empty, a, indented 1/2/tab, inner blanks, trailing blank, '# a', '(x)', 'x)', keyword-looking words inside a line} x line end {LF, CRLF, CR} x every description host (INFO, HTTP method, JSON-RPC method, TAG) x what follows the description (texts of <= 2 lines: every kind of next line of that host - sibling, directive of an enclosing block, bare keywords of every length, end of input) x {bare, parenthesised} x base indentation {2, 4, tab}: catalog text = reference normalisation of the generator's text, bare = parenthesised, blank text rejected, normalising the result again changes nothing (hooked normaliser); annotations: ALL texts of length 0..4 (quick) / 0..5 (thorough) over {a, space, tab, *, /, ., newline} on every annotation-bearing directive in the // and /* */ spellings: catalog annotation = reference whitespace collapse, both spellings equal; non-trivial = text with more than one line / with a blank or delimiter character; distinct = distinct (host, spelling, text) ; the line after a description: also a minimal directive of EVERY kind, derived from the keyword table, kept when the document without the Description is accepted",
+		Rule:   "descriptions: ALL texts of 1..3 (quick) / 1..4 (thorough) lines over a line alphabet {empty, a, indented 1/2/tab, inner blanks, trailing blank, '# a', '(x)', 'x)', keyword-looking words inside a line, lines starting with digits that are not a response code} x line end {LF, CRLF, CR} x every description host (INFO, HTTP method, JSON-RPC method, TAG) x what follows the description (texts of <= 2 lines: every kind of next line of that host - sibling, directive of an enclosing block, bare keywords of every length, end of input) x {bare, parenthesised} x base indentation {2, 4, tab}: catalog text = reference normalisation of the generator's text, bare = parenthesised, blank text rejected, normalising the result again changes nothing (hooked normaliser); annotations: ALL texts of length 0..4 (quick) / 0..5 (thorough) over {a, space, tab, *, /, ., newline} on every annotation-bearing directive in the // and /* */ spellings: catalog annotation = reference whitespace collapse, both spellings equal; non-trivial = text with more than one line / with a blank or delimiter character; distinct = distinct (host, spelling, text) ; the line after a description: also a minimal directive of EVERY kind, derived from the keyword table, kept when the document without the Description is accepted",
 		Assume: []string{"not judged (the sentence leaves them open): whitespace-only lines inside a text, trailing blanks of the last line, texts a bare spelling cannot express (lines starting with a keyword, a response code or a parenthesis)"},
 		Run:    runC15, QuickCap: 8 * time.Minute, ThoroughCap: 40 * time.Minute,
 	})
@@ -188,7 +188,7 @@ func bareExpressible(line string) bool {
 
 func runC15(c *fw.Ctx) {
 	opt := drv.Options{FixedSeed: true}
-	lineAlpha := []string{"", "a", " b", "  c", "\td", "e f", "g ", "# h", "(i)", "j)", "k GET x", "l 200", "é", "  ", "\t"}
+	lineAlpha := []string{"", "a", " b", "  c", "\td", "e f", "g ", "# h", "(i)", "j)", "k GET x", "l 200", "é", "  ", "\t", "25 m", "4x4 n"}
 	maxLines := 3
 	annLen := 4
 	if !c.Quick() {
